@@ -945,4 +945,13 @@ end
 /-- the operators of stage B: 201-208 and 221 -/
 def stageBOp (id : Nat) : Bool := (201 ≤ id / 1000 && id / 1000 ≤ 208) || id / 1000 == 221
 
+theorem mem_zip_map {α β : Type} (f : α → β) (l : List α) (p : α × β) (h : p ∈ l.zip (l.map f)) : p.2 = f p.1 := by
+  induction l with
+  | nil => simp at h
+  | cons x xs ih =>
+    simp only [List.map, List.zip_cons_cons, List.mem_cons] at h
+    rcases h with h | h
+    · rw [h]
+    · exact ih h
+
 end Bufr.C08W
